@@ -14,8 +14,8 @@ import os
 import vlib
 
 PROPS = "Properties_C10"
-RULE = ("every string over {'/','.','a','b'} up to length 7 (quick) / 9 plus every string over {'/','.','a'} of "
-        "length 10 and 11 (thorough), random strings up to length 300 over separator/dot-heavy byte alphabets (bytes 1..255), "
+RULE = ("every string over {'/','.','a','b'} up to length 7 (quick) / 10 plus every string over {'/','.','a'} of "
+        "length 11 (thorough), random strings up to length 300 over separator/dot-heavy byte alphabets (bytes 1..255), "
         "pattern strings (separator runs x dot names), and NULL for the queries; non-trivial = a string containing a "
         "separator or a dot; distinct case strings counted")
 ASSUMPTIONS = [
@@ -115,8 +115,8 @@ def gen(ctx, seed, tier):
         return rand_cases(r, 4000, 300)
     cases = ["N"]
     if tier == "thorough":
-        cases += list(enum(ALPHA4, 0, 9))
-        cases += list(enum(ALPHA3, 10, 11))
+        cases += list(enum(ALPHA4, 0, 10))
+        cases += list(enum(ALPHA3, 11, 11))
         cases += patterns()
         cases += rand_cases(r, 20000, 300)
     else:
@@ -234,6 +234,28 @@ def stats(cases, impl):
             k, _, v = t.partition("=")
             if k in names and v != "-":
                 d["impl_nonempty_" + k] += 1
+    # which branch of the scanners each case took, read off the implementation's views
+    br = {"parent_is_root": 0, "parent_general": 0, "parent_empty": 0, "filename_empty_trailing_sep": 0,
+          "stem_is_whole_name_with_dot": 0, "stem_cut_at_last_dot": 0}
+    for c, l in zip(cases, impl):
+        if c == "N" or " || " not in l:
+            continue
+        o = dict(t.split("=", 1) for t in vlib.obs(l).split())
+        s = dict(t.split("=", 1) for t in l.split(" || ")[1].split())
+        b = bytes_of(c)
+        if s.get("par") == s.get("rp") and o.get("rp") != "-":
+            br["parent_is_root"] += 1
+        elif o.get("par") == "-":
+            br["parent_empty"] += 1
+        else:
+            br["parent_general"] += 1
+        if o.get("fn") == "-" and b.endswith(b"/") and b.strip(b"/"):
+            br["filename_empty_trailing_sep"] += 1
+        if o.get("fn") != "-" and o.get("ex") == "-" and "2e" in [o["fn"][i:i + 2] for i in range(0, len(o["fn"]), 2)]:
+            br["stem_is_whole_name_with_dot"] += 1
+        if o.get("ex") not in ("-", None):
+            br["stem_cut_at_last_dot"] += 1
+    d["branches"] = br
     return d
 
 
